@@ -24,7 +24,7 @@ func init() {
 	register(&Check{
 		ID:    "C04",
 		Level: "model_checking",
-		Rule: "product: amounts {1,2,2^64-1,2^64,2^64+1,2^128,2^255,2^256-1 on a fresh supply} x 3 mint recipients with 32 distinct bytes x 2 (domain, burn token) x local denom stored as uusdc / uUSDC x caller zero/submitter, " +
+		Rule: "product: amounts {1,2,2^64-1,2^64,2^64+1,2^128,2^255,2^256-1 on a fresh supply} x 5 mint recipients (32 distinct bytes, leading-zero address, non-zero high bytes) x 2 (domain, burn token) x local denom stored as uusdc / uUSDC / a denom the factory does not mint x caller zero/submitter, " +
 			"each judged on the recorded Mint request, bank balances/supply and both events; BFS (depth 4 quick / 5 thorough, sharded by first action) over 3 burn receives, plain and failing receives and one transaction of every other type " +
 			"with 'supply minted == sum over distinct accepted burn messages' in every state; distinct_nontrivial = distinct (case) in the product + distinct (minted-set, transaction kind, outcome) in the BFS",
 		Assumptions: []string{"histories whose cumulative mint would overflow the bank's 256-bit supply are outside the alphabet"},
@@ -42,7 +42,7 @@ const c04Shards = 16
 
 func c04Jobs(tier string) []Job {
 	var jobs []Job
-	for _, local := range []string{"uusdc", "uUSDC"} {
+	for _, local := range []string{"uusdc", "uUSDC", "ueurc"} {
 		for _, src := range []uint32{DomEth, DomAvax} {
 			local, src := local, src
 			jobs = append(jobs, Job{Name: fmt.Sprintf("mint-product local=%s src=%d", local, src), Run: func(r *Run) { c04Product(r, local, src) }})
@@ -77,7 +77,9 @@ func c04Product(r *Run, local string, src uint32) {
 	signers := Keys[0:2]
 	m1 := func(n uint) *big.Int { return new(big.Int).Sub(bigPow2(n), big.NewInt(1)) }
 	amounts := []*big.Int{big.NewInt(1), big.NewInt(2), m1(64), bigPow2(64), new(big.Int).Add(bigPow2(64), big.NewInt(1)), bigPow2(128), bigPow2(255)}
-	recips := [][]byte{distinct32(0x10), distinct32(0x83), pad32(UserA.Addr)}
+	recips := [][]byte{distinct32(0x10), distinct32(0x83), pad32(UserA.Addr),
+		pad32(append([]byte{0, 0}, bytes.Repeat([]byte{0x5A}, 18)...)), // 20-byte address that itself starts with zero bytes
+		append(bytes.Repeat([]byte{0xEE}, 12), UserB.Addr...)}       // non-zero high 12 bytes
 	// a recipient whose high 12 bytes are non-zero and differ: [0:20] != [12:32]
 	for _, fresh := range []bool{false, true} {
 		scn := c04Scenario(local, fresh)
